@@ -171,6 +171,28 @@ def swap_nots(stmts):
     return out
 
 
+class _NNF(ast.NodeTransformer):
+    """negations pushed inwards: de Morgan, `not (a in b)` = `a not in b`, `not not a` = `a`"""
+    def visit_UnaryOp(self, node):
+        if isinstance(node.op, ast.Not):
+            x = node.operand
+            if isinstance(x, ast.BoolOp):
+                op = ast.And() if isinstance(x.op, ast.Or) else ast.Or()
+                return self.visit(ast.BoolOp(op=op, values=[ast.UnaryOp(op=ast.Not(), operand=v_) for v_ in x.values]))
+            if isinstance(x, ast.UnaryOp) and isinstance(x.op, ast.Not):
+                return self.visit(x.operand)
+            if isinstance(x, ast.Compare) and len(x.ops) == 1:
+                flip = {ast.In: ast.NotIn, ast.NotIn: ast.In, ast.Is: ast.IsNot, ast.IsNot: ast.Is, ast.Eq: ast.NotEq, ast.NotEq: ast.Eq}
+                for a, b in flip.items():
+                    if isinstance(x.ops[0], a):
+                        return self.visit(ast.Compare(left=x.left, ops=[b()], comparators=x.comparators))
+        return self.generic_visit(node)
+
+
+def nnf(tree):
+    return ast.fix_missing_locations(_NNF().visit(tree))
+
+
 def literal_table(node):
     """rows of a tuple/list of tuples of Names/Constants, or None"""
     if isinstance(node, (ast.Tuple, ast.List)) and node.elts and all(
@@ -202,6 +224,7 @@ class Printer:
         self.param = None
         self.attr = {}         # attribute of the parameter -> coq variable
         self.types = {}        # local name -> 'term' | 'mv' | 'stmt' | 'str' | 'nat'
+        self.alias = {}        # local name -> coq expression (enumerate with a start offset)
         self.where = ''
 
     # ---- which Encoder method prints which class (from the classes' own `visit` methods)
@@ -231,6 +254,8 @@ class Printer:
             raise SystemExit(f'mm_print_slice: Encoder.{name} not found')
         m = self.methods[name]
         args = [a.arg for a in m.args.args]
+        if any(isinstance(d, ast.Name) and d.id == 'staticmethod' for d in m.decorator_list):
+            args = ['self'] + args                 # a static method: no receiver
         if len(args) != 2 or args[0] != 'self' or m.args.vararg or m.args.kwarg or m.args.kwonlyargs or m.args.defaults:
             fail(f'Encoder.{name}', m, 'signature is not (self, node)')
         self.cls, self.param, self.where = cls, args[1], f'Encoder.{name}'
@@ -246,6 +271,8 @@ class Printer:
                 return str(n.value)
             fail(self.where, n, 'constant outside the subset')
         if isinstance(n, ast.Name):
+            if n.id in self.alias:
+                return self.alias[n.id]
             if n.id in self.types:
                 return v(n.id)
             fail(self.where, n, 'unknown name')
@@ -323,6 +350,10 @@ class Printer:
                 and isinstance(s.value.func.value, ast.Name) and s.value.func.value.id == 'self' \
                 and len(s.value.args) == 1 and not s.value.keywords:
             a = s.value.args[0]
+            if s.value.func.attr == 'write' and isinstance(a, ast.IfExp):
+                # self.write(A if c else B)  =  if c: self.write(A) else: self.write(B)
+                mk = lambda x: ast.Expr(value=ast.Call(func=s.value.func, args=[x], keywords=[]))  # noqa: E731
+                return self.stmt(ast.fix_missing_locations(ast.If(test=a.test, body=[mk(a.body)], orelse=[mk(a.orelse)])))
             if s.value.func.attr == 'write':
                 if isinstance(a, ast.Constant) and isinstance(a.value, str):
                     return f'[W {coq_str(a.value)}]'
@@ -345,10 +376,17 @@ class Printer:
         if isinstance(s, ast.For) and not s.orelse:
             it = s.iter
             idx = None
-            if isinstance(it, ast.Call) and isinstance(it.func, ast.Name) and it.func.id == 'enumerate' and len(it.args) == 1:
+            start = 0
+            if isinstance(it, ast.Call) and isinstance(it.func, ast.Name) and it.func.id == 'enumerate' and len(it.args) in (1, 2) \
+                    and all(k.arg == 'start' for k in it.keywords) and len(it.args) + len(it.keywords) <= 2:
                 if not (isinstance(s.target, ast.Tuple) and len(s.target.elts) == 2 and all(isinstance(e, ast.Name) for e in s.target.elts)):
                     fail(self.where, s, 'enumerate loop target')
                 idx, var = s.target.elts[0].id, s.target.elts[1].id
+                sv = it.args[1] if len(it.args) == 2 else (it.keywords[0].value if it.keywords else None)
+                if sv is not None:
+                    if not (isinstance(sv, ast.Constant) and isinstance(sv.value, int) and 0 <= sv.value < 100):
+                        fail(self.where, it, 'enumerate start outside the subset')
+                    start = sv.value
                 it = it.args[0]
             elif isinstance(s.target, ast.Name):
                 var = s.target.id
@@ -361,7 +399,10 @@ class Printer:
             self.types[var] = ITER_ELEM[(self.cls, it.attr)]
             if idx:
                 self.types[idx] = 'nat'
+                if start:
+                    self.alias[idx] = f'({v(idx)} + {start})'     # the loop variable counts from `start`
             body = self.stmts(s.body)
+            self.alias.pop(idx, None)
             self.types = saved
             if idx:
                 return f'flat_mapi (fun {v(idx)} {v(var)} => {body}) {self.expr(it)}'
@@ -613,6 +654,20 @@ def tupv(names):
 class Slicer:
     def __init__(self, tree):
         self.funcs = {n.name: n for n in tree.body if isinstance(n, ast.FunctionDef)}
+        # two-field NamedTuple classes are pairs: class name -> [field0, field1]
+        self.ntuples = {}
+        for n in tree.body:
+            if isinstance(n, ast.ClassDef) and any(isinstance(b, ast.Name) and b.id == 'NamedTuple' for b in n.bases):
+                fields = [x.target.id for x in n.body if isinstance(x, ast.AnnAssign) and isinstance(x.target, ast.Name) and x.value is None]
+                if len(fields) == 2:
+                    self.ntuples[n.name] = fields
+        self.nt_field = {}
+        for fields in self.ntuples.values():
+            for i, fld in enumerate(fields):
+                if fld in ATTRS or self.nt_field.get(fld, i) != i:
+                    raise SystemExit(f'mm_print_slice: NamedTuple field {fld} is ambiguous')
+                self.nt_field[fld] = i
+        self.dicts = set()      # names known to hold the dictionary (for `key in d`)
         self.where = ''
         self.fresh = 0
         self.pre = []           # pending (var, option-valued coq expr) bindings of fallible sub-expressions
@@ -648,6 +703,8 @@ class Slicer:
                 return v(n.value.id)
             if n.attr in ATTRS:
                 return f'({ATTRS[n.attr]} {self.expr(n.value)})'
+            if n.attr in self.nt_field:
+                return f'({("fst", "snd")[self.nt_field[n.attr]]} {self.expr(n.value)})'
             fail(self.where, n, 'attribute outside the subset')
         if isinstance(n, (ast.Tuple, ast.List)):
             return self.seq(n)
@@ -683,7 +740,9 @@ class Slicer:
         if isinstance(n, ast.Compare) and len(n.ops) == 1:
             op, l, r = n.ops[0], n.left, n.comparators[0]
             if isinstance(op, (ast.In, ast.NotIn)):
-                if isinstance(r, ast.Call) and isinstance(r.func, ast.Attribute) and r.func.attr == 'keys' and not r.args:
+                if isinstance(r, ast.Name) and r.id in self.dicts:
+                    e = f'(dict_has {self.expr(l)} {self.expr(r)})'
+                elif isinstance(r, ast.Call) and isinstance(r.func, ast.Attribute) and r.func.attr == 'keys' and not r.args:
                     e = f'(dict_has {self.expr(l)} {self.expr(r.func.value)})'
                 elif isinstance(l, ast.Name) and l.id in self.okeys:
                     e = f'(okey_in {self.expr(l)} {self.expr(r)})'
@@ -775,9 +834,19 @@ class Slicer:
         return f'(flat_map (fun {v(x)} => {b}) {itc})'
 
     def call(self, n):
+        f = n.func
+        if isinstance(f, ast.Name) and f.id in self.ntuples:
+            fields = self.ntuples[f.id]
+            vals = dict(zip(fields, n.args))
+            for k in n.keywords:
+                if k.arg not in fields or k.arg in vals:
+                    fail(self.where, n, 'NamedTuple construction outside the subset')
+                vals[k.arg] = k.value
+            if set(vals) != set(fields):
+                fail(self.where, n, 'NamedTuple construction outside the subset')
+            return f'({self.expr(vals[fields[0]])}, {self.expr(vals[fields[1]])})'
         if n.keywords:
             fail(self.where, n, 'keyword arguments')
-        f = n.func
         # X.union(*(E for x in IT))  =  X ++ flat_map (fun x => E) IT
         if isinstance(f, ast.Attribute) and f.attr == 'union' and len(n.args) == 1 and isinstance(n.args[0], ast.Starred) \
                 and isinstance(n.args[0].value, (ast.GeneratorExp, ast.ListComp)) and len(n.args[0].value.generators) == 1 \
@@ -903,6 +972,7 @@ class Slicer:
                 return self.flush(lambda: f'let {v(d)} := {e} in\n  {cont()}')
             if isinstance(s.value, ast.Dict) and not s.value.keys and isinstance(target, ast.Name):
                 self.locals.add(target.id)
+                self.dicts.add(target.id)
                 return f'let {v(target.id)} := ([] : dict) in\n  {cont()}'
             if isinstance(s.value, ast.List) and not s.value.elts and isinstance(target, ast.Name):
                 self.locals.add(target.id)
@@ -1036,21 +1106,20 @@ class Slicer:
         # does any branch return?  then the branches are the rest of the function
         returns = any(isinstance(n, ast.Return) for b in (s.body, s.orelse) for x in b for n in ast.walk(x))
         if returns:
-            if rest:
-                # `if c: return X` followed by the rest
-                if s.orelse or not (len(s.body) == 1 and isinstance(s.body[0], ast.Return)):
-                    fail(self.where, s, 'returning if outside the subset')
-                c = self.expr(s.test)
-                then = self.block(s.body, k)
-                return self.flush(lambda: f'if {c} then {then} else\n  {self.block(rest, k, in_loop_tail)}')
+            # a branch may return or fall through: what follows the `if` is translated at the end of every branch
             c = self.expr(s.test)
-            if self.pure:
-                off = lambda: fail(self.where, s, 'a branch falls off the end of a function that cannot raise')  # noqa: E731
-                if not s.orelse or self.pre:
-                    off()
-                return f'if {c} then {self.block(s.body, off)} else {self.block(s.orelse, off)}'
-            then = self.block(s.body, lambda: 'None')
-            els = self.block(s.orelse, lambda: 'None') if s.orelse else 'None'
+            pre, self.pre = self.pre, []
+
+            def krest():
+                return self.block(rest, k, in_loop_tail)
+            saved = set(self.locals)
+            then = self.block(s.body, krest, in_loop_tail)
+            self.locals = set(saved)
+            els = self.block(s.orelse, krest, in_loop_tail)
+            self.locals = saved
+            if self.pure and pre:
+                fail(self.where, s, 'fallible expression in a function that cannot raise')
+            self.pre = pre
             return self.flush(lambda: f'if {c} then\n  {then}\n  else\n  {els}')
         state = sorted(self.assigned([s]), key=lambda x: (x == 'yielded__', x))
         st = [v(x) if x != 'yielded__' else x for x in state]
@@ -1093,6 +1162,7 @@ class Slicer:
         self.where, self.locals, self.pre, self.okeys, self.maxiom_label = name, {p for p, _ in params}, [], set(), {}
         self.anon, self.pure = set(), False
         self.dbparams = {p for p, t in params if t == 'database'}
+        self.dicts = {p for p, t in params if t == 'dict'}
         ps = ' '.join(f'({v(p)} : {t})' for p, t in params)
         f = self.prepare(f)
         return f, ps
@@ -1166,11 +1236,14 @@ class Slicer:
                     fail(f.name, n, 'helper signature outside the subset')
                 h.decorator_list = []
                 hoisted[h.name] = h
+                for p_, a_ in zip([x.arg for x in h.args.args], n.args):
+                    if isinstance(a_, ast.Name) and a_.id in self.dicts:
+                        self.dicts.add(p_)
         nested = [x for x in f.body if isinstance(x, ast.FunctionDef)]
         for h in hoisted.values():
             if h.name not in {x.name for x in nested}:
                 f.body.insert(0, h)
-        f.body = self.truthy_ifs(swap_nots(f.body))
+        f.body = self.truthy_ifs(swap_nots(nnf(ast.Module(body=f.body, type_ignores=[])).body))
         return ast.fix_missing_locations(f)
 
     def generate(self):
@@ -1203,6 +1276,7 @@ class Slicer:
                 t = s.targets[0] if isinstance(s, ast.Assign) else s.target
                 if isinstance(t, ast.Name) and isinstance(s.value, ast.Dict) and not s.value.keys:
                     inits.append((t.id, '([] : dict)'))
+                    self.dicts.add(t.id)
                     continue
                 if isinstance(t, ast.Name) and isinstance(s.value, ast.Constant) and s.value.value == 0:
                     inits.append((t.id, '0'))
